@@ -12,20 +12,21 @@ Ltac inv H := inversion H; subst; clear H.
 Section Safe.
 Variable inp : str.
 Variable file : N.
+Variable Q : pr -> Prop.        (* what is known of every recorded pair (see Shape.gent) *)
 
-Notation gent := (Shape.gent G inp).
-Notation treps := (Shape.treps G inp).
-Notation tskip := (Shape.tskip G inp).
-Notation okx := (Shape.okx G inp).
+Notation gent := (Shape.gent G inp Q).
+Notation treps := (Shape.treps G inp Q).
+Notation tskip := (Shape.tskip G inp Q).
+Notation okx := (Shape.okx G inp Q).
 
 (** normalise the three computed arguments of a rule body *)
 Ltac norm_body H :=
   match type of H with
-  | Shape.gent _ _ (body_sk _ ?r) (body_atomicity _ ?r ?a) (r_exp (g_rule _ ?r)) ?t ?ps =>
+  | Shape.gent _ _ _ (body_sk _ ?r) (body_atomicity _ ?r ?a) (r_exp (g_rule _ ?r)) ?t ?ps =>
       let b := eval vm_compute in (body_sk G r) in
       let a' := eval vm_compute in (body_atomicity G r a) in
       let ex := eval vm_compute in (r_exp (g_rule G r)) in
-      change (Shape.gent G inp b a' ex t ps) in H
+      change (Shape.gent G inp Q b a' ex t ps) in H
   end.
 
 Ltac open_okx H := unfold Shape.okx in H; norm_body H.
@@ -37,9 +38,9 @@ Ltac inv_call H :=
   | Hr : rule_records _ _ _ = _ |- _ => vm_compute in Hr; first [discriminate Hr | clear Hr]
   end;
   match goal with
-  | Hp : Shape.gent _ _ (body_sk _ ?r) (body_atomicity _ ?r ?a) _ (substr _ ?s ?e) ?k |- _ =>
-      change (Shape.okx G inp a (Pair r s e k)) in Hp
-  | Hp : Shape.gent _ _ (body_sk _ _) (body_atomicity _ _ _) _ _ _ |- _ => norm_body Hp
+  | Hp : Shape.gent _ _ _ (body_sk _ ?r) (body_atomicity _ ?r ?a) _ (substr _ ?s ?e) ?k |- _ =>
+      change (Shape.okx G inp Q a (Pair r s e k)) in Hp
+  | Hp : Shape.gent _ _ _ (body_sk _ _) (body_atomicity _ _ _) _ _ _ |- _ => norm_body Hp
   end.
 
 Lemma tskip_off : forall a t ps, tskip false a t ps -> ps = [] /\ t = [].
@@ -66,27 +67,27 @@ Lemma star_nopairs sk a x :
   forall t ps, gent sk a (Star x) t ps -> ps = [].
 Proof.
   intros Hx Hs t ps H. inv H; [reflexivity|].
-  match goal with H1 : Shape.gent _ _ _ _ x _ _, H2 : Shape.treps _ _ _ _ _ _ _ |- _ =>
+  match goal with H1 : Shape.gent _ _ _ _ _ x _ _, H2 : Shape.treps _ _ _ _ _ _ _ _ |- _ =>
     rewrite (Hx _ _ H1), (treps_nopairs _ _ _ Hx Hs _ _ H2) end. reflexivity.
 Qed.
 
 Ltac inv_leaf :=
   repeat match goal with
-  | H : Shape.gent _ _ _ _ (Lit _) _ _ |- _ => inv H
-  | H : Shape.gent _ _ _ _ (ILit _) _ _ |- _ => inv H
-  | H : Shape.gent _ _ _ _ (Range _ _) _ _ |- _ => inv H
-  | H : Shape.gent _ _ _ _ Any _ _ |- _ => inv H
-  | H : Shape.gent _ _ _ _ Soi _ _ |- _ => inv H
-  | H : Shape.gent _ _ _ _ Eoi _ _ |- _ => inv H
-  | H : Shape.gent _ _ _ _ (NotP _) _ _ |- _ => inv H
-  | H : Shape.gent _ _ _ _ (AndP _) _ _ |- _ => inv H
-  | H : Shape.gent _ _ _ _ (Seq _ _) _ _ |- _ => inv H
-  | H : Shape.gent _ _ _ _ (Alt _ _) _ _ |- _ => inv H
-  | H : Shape.gent _ _ _ _ (Opt _) _ _ |- _ => inv H
-  | H : Shape.gent _ _ _ _ (Plus _) _ _ |- _ => inv H
-  | H : Shape.tskip _ _ false _ _ _ |- _ => apply tskip_off in H; destruct H; subst
-  | H : Shape.tskip _ _ _ AAtomic _ _ |- _ => apply tskip_atomic in H; destruct H; subst
-  | H : Shape.tskip _ _ _ ACompound _ _ |- _ => apply tskip_compound in H; destruct H; subst
+  | H : Shape.gent _ _ _ _ _ (Lit _) _ _ |- _ => inv H
+  | H : Shape.gent _ _ _ _ _ (ILit _) _ _ |- _ => inv H
+  | H : Shape.gent _ _ _ _ _ (Range _ _) _ _ |- _ => inv H
+  | H : Shape.gent _ _ _ _ _ Any _ _ |- _ => inv H
+  | H : Shape.gent _ _ _ _ _ Soi _ _ |- _ => inv H
+  | H : Shape.gent _ _ _ _ _ Eoi _ _ |- _ => inv H
+  | H : Shape.gent _ _ _ _ _ (NotP _) _ _ |- _ => inv H
+  | H : Shape.gent _ _ _ _ _ (AndP _) _ _ |- _ => inv H
+  | H : Shape.gent _ _ _ _ _ (Seq _ _) _ _ |- _ => inv H
+  | H : Shape.gent _ _ _ _ _ (Alt _ _) _ _ |- _ => inv H
+  | H : Shape.gent _ _ _ _ _ (Opt _) _ _ |- _ => inv H
+  | H : Shape.gent _ _ _ _ _ (Plus _) _ _ |- _ => inv H
+  | H : Shape.tskip _ _ _ false _ _ _ |- _ => apply tskip_off in H; destruct H; subst
+  | H : Shape.tskip _ _ _ _ AAtomic _ _ |- _ => apply tskip_atomic in H; destruct H; subst
+  | H : Shape.tskip _ _ _ _ ACompound _ _ |- _ => apply tskip_compound in H; destruct H; subst
   end.
 
 Lemma ws_nopairs : forall sk t ps, gent sk ANon (Call R_WHITESPACE) t ps -> ps = [].
@@ -99,10 +100,10 @@ Lemma comment_nopairs : forall sk t ps, gent sk ANon (Call R_COMMENT) t ps -> ps
 Proof.
   intros sk t ps H. inv_call H. inv_leaf;
     repeat match goal with
-    | H : Shape.gent _ _ _ _ (Star (Lit _)) _ ?p |- _ =>
+    | H : Shape.gent _ _ _ _ _ (Star (Lit _)) _ ?p |- _ =>
         apply (star_nopairs false AAtomic _) in H;
           [subst p|intros ? ? HH; inv HH; reflexivity|intros ? ? HH; apply tskip_off in HH; apply HH]
-    | H : Shape.gent _ _ _ _ (Star (Call R_CommentCharacter)) _ ?p |- _ =>
+    | H : Shape.gent _ _ _ _ _ (Star (Call R_CommentCharacter)) _ ?p |- _ =>
         apply (star_nopairs false AAtomic _) in H;
           [subst p|intros ? ? HH; eapply commentchar_nopairs; exact HH|intros ? ? HH; apply tskip_off in HH; apply HH]
     end; reflexivity.
@@ -113,21 +114,21 @@ Lemma skip_nopairs : forall sk a t ps, tskip sk a t ps -> ps = [].
 Proof.
   intros sk a t ps H. inv H; [reflexivity|].
   match goal with H0 : skip_exp _ = Some _ |- _ => vm_compute in H0; inv H0 end.
-  match goal with H1 : Shape.gent _ _ _ _ (Seq _ _) _ _ |- _ => inv H1 end.
+  match goal with H1 : Shape.gent _ _ _ _ _ (Seq _ _) _ _ |- _ => inv H1 end.
   assert (Hoff : forall t ps, tskip false ANon t ps -> ps = []) by (intros ? ? HH; apply tskip_off in HH; apply HH).
   assert (Hws : forall t ps, gent false ANon (Star (Call R_WHITESPACE)) t ps -> ps = []).
   { intros ? ? HH. eapply star_nopairs; [| |exact HH]; [intros ? ? H'; eapply ws_nopairs; exact H'|exact Hoff]. }
   assert (Hcw : forall t ps, gent false ANon (Seq (Call R_COMMENT) (Star (Call R_WHITESPACE))) t ps -> ps = []).
   { intros t' ps' HH. inv HH.
     repeat match goal with
-    | H : Shape.tskip _ _ false _ _ _ |- _ => apply tskip_off in H; destruct H; subst
-    | H : Shape.gent _ _ _ _ (Star (Call R_WHITESPACE)) _ ?p |- _ => apply Hws in H; subst p
-    | H : Shape.gent _ _ _ _ (Call R_COMMENT) _ ?p |- _ => apply comment_nopairs in H; subst p
+    | H : Shape.tskip _ _ _ false _ _ _ |- _ => apply tskip_off in H; destruct H; subst
+    | H : Shape.gent _ _ _ _ _ (Star (Call R_WHITESPACE)) _ ?p |- _ => apply Hws in H; subst p
+    | H : Shape.gent _ _ _ _ _ (Call R_COMMENT) _ ?p |- _ => apply comment_nopairs in H; subst p
     end. reflexivity. }
   repeat match goal with
-  | H : Shape.tskip _ _ false _ _ _ |- _ => apply tskip_off in H; destruct H; subst
-  | H : Shape.gent _ _ _ _ (Star (Call R_WHITESPACE)) _ ?p |- _ => apply Hws in H; subst p
-  | H : Shape.gent _ _ _ _ (Star (Seq _ _)) _ ?p |- _ =>
+  | H : Shape.tskip _ _ _ false _ _ _ |- _ => apply tskip_off in H; destruct H; subst
+  | H : Shape.gent _ _ _ _ _ (Star (Call R_WHITESPACE)) _ ?p |- _ => apply Hws in H; subst p
+  | H : Shape.gent _ _ _ _ _ (Star (Seq _ _)) _ ?p |- _ =>
       apply (star_nopairs false ANon _ Hcw Hoff) in H; subst p
   end. reflexivity.
 Qed.
@@ -136,22 +137,22 @@ Qed.
 (** ** the general inversion step (normal rules: skipping contributes no pair) *)
 Ltac step :=
   match goal with
-  | H : Shape.gent _ _ _ _ (Lit _) _ _ |- _ => inv H
-  | H : Shape.gent _ _ _ _ (ILit _) _ _ |- _ => inv H
-  | H : Shape.gent _ _ _ _ (Range _ _) _ _ |- _ => inv H
-  | H : Shape.gent _ _ _ _ Any _ _ |- _ => inv H
-  | H : Shape.gent _ _ _ _ Soi _ _ |- _ => inv H
-  | H : Shape.gent _ _ _ _ Eoi _ _ |- _ => inv H
-  | H : Shape.gent _ _ _ _ (NotP _) _ _ |- _ => inv H
-  | H : Shape.gent _ _ _ _ (AndP _) _ _ |- _ => inv H
-  | H : Shape.gent _ _ _ _ (Seq _ _) _ _ |- _ => inv H
-  | H : Shape.gent _ _ _ _ (Alt _ _) _ _ |- _ => inv H
-  | H : Shape.gent _ _ _ _ (Opt _) _ _ |- _ => inv H
-  | H : Shape.gent _ _ _ _ (Call _) _ _ |- _ => inv_call H
-  | H : Shape.tskip _ _ false _ _ _ |- _ => apply tskip_off in H; destruct H; subst
-  | H : Shape.tskip _ _ _ AAtomic _ _ |- _ => apply tskip_atomic in H; destruct H; subst
-  | H : Shape.tskip _ _ _ ACompound _ _ |- _ => apply tskip_compound in H; destruct H; subst
-  | H : Shape.tskip _ _ _ _ _ ?p |- _ => apply skip_nopairs in H; subst p
+  | H : Shape.gent _ _ _ _ _ (Lit _) _ _ |- _ => inv H
+  | H : Shape.gent _ _ _ _ _ (ILit _) _ _ |- _ => inv H
+  | H : Shape.gent _ _ _ _ _ (Range _ _) _ _ |- _ => inv H
+  | H : Shape.gent _ _ _ _ _ Any _ _ |- _ => inv H
+  | H : Shape.gent _ _ _ _ _ Soi _ _ |- _ => inv H
+  | H : Shape.gent _ _ _ _ _ Eoi _ _ |- _ => inv H
+  | H : Shape.gent _ _ _ _ _ (NotP _) _ _ |- _ => inv H
+  | H : Shape.gent _ _ _ _ _ (AndP _) _ _ |- _ => inv H
+  | H : Shape.gent _ _ _ _ _ (Seq _ _) _ _ |- _ => inv H
+  | H : Shape.gent _ _ _ _ _ (Alt _ _) _ _ |- _ => inv H
+  | H : Shape.gent _ _ _ _ _ (Opt _) _ _ |- _ => inv H
+  | H : Shape.gent _ _ _ _ _ (Call _) _ _ |- _ => inv_call H
+  | H : Shape.tskip _ _ _ false _ _ _ |- _ => apply tskip_off in H; destruct H; subst
+  | H : Shape.tskip _ _ _ _ AAtomic _ _ |- _ => apply tskip_atomic in H; destruct H; subst
+  | H : Shape.tskip _ _ _ _ ACompound _ _ |- _ => apply tskip_compound in H; destruct H; subst
+  | H : Shape.tskip _ _ _ _ _ _ ?p |- _ => apply skip_nopairs in H; subst p
   end.
 Ltac steps := repeat step; cbn [app] in *; repeat rewrite app_nil_r in *.
 
@@ -201,8 +202,8 @@ Lemma plus_forall (P : pr -> Prop) sk a x :
   forall t ps, gent sk a (Plus x) t ps -> Forall P ps.
 Proof.
   intros Hx t ps H. inv H.
-  match goal with H1 : Shape.gent _ _ _ _ (Seq _ _) _ _ |- _ => inv H1 end.
-  match goal with H1 : Shape.tskip _ _ _ _ _ _ |- _ => rewrite (skip_nopairs _ _ _ _ H1) end. cbn [app].
+  match goal with H1 : Shape.gent _ _ _ _ _ (Seq _ _) _ _ |- _ => inv H1 end.
+  match goal with H1 : Shape.tskip _ _ _ _ _ _ _ |- _ => rewrite (skip_nopairs _ _ _ _ H1) end. cbn [app].
   apply Forall_app. split; [eapply Hx; eassumption|eapply star_forall; eassumption].
 Qed.
 
@@ -210,9 +211,9 @@ Lemma plus_call_isok sk a r : rule_records G r a = true ->
   forall t ps, gent sk a (Plus (Call r)) t ps -> Forall (isok r a) ps.
 Proof. intros Hr t ps H. eapply plus_forall; [|exact H]. apply call_isok. exact Hr. Qed.
 
-(** ** results that are values or one of the two value-level panics *)
+(** ** results that are values (not a panic) *)
 Definition safe {A} (r : bres A) : Prop :=
-  match r with BOk _ => True | BPanic k => k = P_char \/ k = P_radix end.
+  match r with BOk _ => True | BPanic _ => False end.
 
 Lemma safe_bind {A B} (x : bres A) (f : A -> bres B) :
   safe x -> (forall a, x = BOk a -> safe (f a)) -> safe (bbind x f).
@@ -228,12 +229,6 @@ Lemma safe_omapM {A B} (f : A -> bres B) o : (forall x, o = Some x -> safe (f x)
 Proof.
   destruct o as [x|]; cbn [omapM]; intros H; [|exact I].
   specialize (H x eq_refl). destruct (f x); [exact I|exact H].
-Qed.
-
-Lemma code_to_char_safe ds : safe (code_to_char ds).
-Proof.
-  unfold code_to_char. destruct (u32_from_hex ds) as [c|]; [|right; reflexivity].
-  destruct (char_from_u32 c); [exact I|left; reflexivity].
 Qed.
 
 (** sizes, for the recursive builders *)
@@ -259,37 +254,73 @@ Ltac open_pair p H :=
 Lemma safe_variable p : isok R_Variable ANon p -> safe (build_variable inp file p).
 Proof. intros H. open_pair p H. steps. exact I. Qed.
 
-(** *** value.rs: one StringCharacter *)
-Lemma safe_string_char p : isok R_StringCharacter ACompound p -> safe (build_string_char inp p).
+(** *** value.rs decode_string_characters: on a NormalStringValue pair of the tree it returns a string or the
+    offending pair -- it reaches none of its panics ([only_child], "Unknown escape sequence", "Unexpected rule",
+    [chars().next().unwrap()]) *)
+Lemma dcons_np ch r : (forall k, r <> DPanic k) -> forall k, dcons ch r <> DPanic k.
+Proof. intros H k. destruct r; cbn [dcons]; [discriminate|discriminate|apply H]. Qed.
+
+Lemma decode_chars_no_panic kids : Forall (isok R_StringCharacter ACompound) kids ->
+  forall leading k, decode_chars inp kids leading <> DPanic k.
 Proof.
-  intros H. open_pair p H. steps; unfold build_string_char; cbn [only_child pair_kids pair_rule].
-  - (* \u{...} *)
-    match goal with H : Shape.okx _ _ _ (Pair R_EscapedUnicodeBrace _ _ _) |- _ => open_okx H end. steps.
-    cbn [only_child pair_kids]. apply code_to_char_safe.
-  - apply code_to_char_safe.
-  - (* \x *)
-    match goal with H : Shape.okx _ _ _ (Pair R_EscapedCharacter _ _ _) |- _ => open_okx H end.
-    steps; unfold as_str; cbn [pair_start pair_end];
-      match goal with H : _ = substr _ _ _ |- _ => rewrite <- H end; exact I.
-  - match goal with H : Shape.okx _ _ _ (Pair R_NormalStringCharacter _ _ _) |- _ => open_okx H end.
-    steps. unfold as_str; cbn [pair_start pair_end].
-    match goal with H : _ = substr _ _ _ |- _ => rewrite <- H end. exact I.
+  induction 1 as [|x rest Hx _ IH]; intros leading k.
+  - cbn [decode_chars]. destruct leading as [[? ?]|]; discriminate.
+  - open_pair x Hx. steps; cbn [decode_chars pair_kids]; unfold escaped_unicode, plain_char; cbn [pair_rule].
+    + (* \u{...} *)
+      match goal with H : Shape.okx _ _ _ _ (Pair R_EscapedUnicodeBrace _ _ _) |- _ => open_okx H end. steps.
+      cbn [only_child pair_kids].
+      repeat first [apply IH | apply dcons_np; intros | discriminate
+                   | match goal with
+                     | |- (match ?x with _ => _ end) <> _ => destruct x eqn:?
+                     | |- (if ?x then _ else _) <> _ => destruct x eqn:?
+                     end].
+    + repeat first [apply IH | apply dcons_np; intros | discriminate
+                   | match goal with
+                     | |- (match ?x with _ => _ end) <> _ => destruct x eqn:?
+                     | |- (if ?x then _ else _) <> _ => destruct x eqn:?
+                     end].
+    + (* \x *)
+      match goal with H : Shape.okx _ _ _ _ (Pair R_EscapedCharacter _ _ _) |- _ => open_okx H end.
+      steps; unfold as_str; cbn [pair_start pair_end];
+        match goal with H : _ = substr _ _ _ |- _ => rewrite <- H end; cbn [escaped_char N.eqb Pos.eqb];
+        repeat first [apply IH | apply dcons_np; intros | discriminate
+                     | match goal with
+                       | |- (match ?x with _ => _ end) <> _ => destruct x eqn:?
+                       | |- (if ?x then _ else _) <> _ => destruct x eqn:?
+                       end].
+    + match goal with H : Shape.okx _ _ _ _ (Pair R_NormalStringCharacter _ _ _) |- _ => open_okx H end.
+      steps. unfold as_str; cbn [pair_start pair_end].
+      match goal with H : _ = substr _ _ _ |- _ => rewrite <- H end.
+      repeat first [apply IH | apply dcons_np; intros | discriminate
+                   | match goal with
+                     | |- (match ?x with _ => _ end) <> _ => destruct x eqn:?
+                     | |- (if ?x then _ else _) <> _ => destruct x eqn:?
+                     end].
 Qed.
 
+Lemma decode_no_panic a s e kids : okx a (Pair R_NormalStringValue s e kids) ->
+  forall k, decode_string_characters inp (Pair R_NormalStringValue s e kids) <> DPanic k.
+Proof.
+  intros H k. open_okx H. steps.
+  match goal with H : Shape.gent _ _ _ _ _ (Plus (Call R_StringCharacter)) _ _ |- _ =>
+    apply (plus_call_isok false ACompound R_StringCharacter eq_refl) in H end.
+  unfold decode_string_characters. cbn [pair_kids]. apply decode_chars_no_panic. assumption.
+Qed.
 
-Ltac open_kid r := match goal with H : Shape.okx _ _ _ (Pair r _ _ _) |- _ => open_okx H end.
+(** what validation establishes for a NormalStringValue pair: it decodes *)
+Definition decodes (q : pr) : Prop :=
+  pair_rule q = R_NormalStringValue -> exists v, decode_string_characters inp q = DOk v.
+Hypothesis QD : forall q, Q q -> decodes q.
+
+Ltac open_kid r := match goal with H : Shape.okx _ _ _ _ (Pair r _ _ _) |- _ => open_okx H end.
 
 (** *** value.rs build_string_value (StringValue is compound-atomic: its body runs under ACompound whatever the caller) *)
 Lemma safe_string_value a p : isok R_StringValue a p -> safe (build_string_value inp file p).
 Proof.
   intros H. open_pair p H. steps; unfold build_string_value; cbn [only_child pair_kids pair_rule].
   - exact I.
-  - (* NormalStringValue: one StringCharacter pair per character *)
-    open_kid R_NormalStringValue. steps.
-    match goal with H : Shape.gent _ _ _ _ (Plus (Call R_StringCharacter)) _ _ |- _ =>
-      apply (plus_call_isok false ACompound R_StringCharacter eq_refl) in H end.
-    apply safe_bind; [|intros; exact I].
-    apply safe_mapM. cbn [pair_kids]. eapply Forall_impl; [|eassumption]. intros x Hx. apply safe_string_char. exact Hx.
+  - (* NormalStringValue: validated before building *)
+    match goal with HQ : Q (Pair R_NormalStringValue _ _ _) |- _ => destruct (QD _ HQ eq_refl) as [v ->] end. exact I.
   - (* BlockStringValue: at least the two triple quotes *)
     open_kid R_BlockStringValue. steps.
     unfold as_str; cbn [pair_start pair_end].
@@ -313,7 +344,7 @@ Proof.
   - (* ListValue *)
     open_kid R_ListValue. steps.
     + cbn [forallb]. apply safe_bind; [exact I|intros; exact I].
-    + match goal with H : Shape.gent _ _ _ _ (Plus (Call R_Value)) _ _ |- _ =>
+    + match goal with H : Shape.gent _ _ _ _ _ (Plus (Call R_Value)) _ _ |- _ =>
         apply (plus_call_isok true ANon R_Value eq_refl) in H; rename H into Hk end.
       rewrite (forall_isok_is_rule _ _ _ Hk). apply safe_bind; [|intros; exact I].
       apply safe_mapM. rewrite Forall_forall in *. intros x Hx. apply IH; [|apply Hk; exact Hx].
@@ -321,7 +352,7 @@ Proof.
   - (* ObjectValue *)
     open_kid R_ObjectValue. steps.
     + cbn [forallb]. apply safe_bind; [exact I|intros; exact I].
-    + match goal with H : Shape.gent _ _ _ _ (Plus (Call R_ObjectField)) _ _ |- _ =>
+    + match goal with H : Shape.gent _ _ _ _ _ (Plus (Call R_ObjectField)) _ _ |- _ =>
         apply (plus_call_isok true ANon R_ObjectField eq_refl) in H; rename H into Hk end.
       rewrite (forall_isok_is_rule _ _ _ Hk). apply safe_bind; [|intros; exact I].
       apply safe_mapM. rewrite Forall_forall in *. intros x Hx. pose proof (Hk x Hx) as Hf.
@@ -343,7 +374,7 @@ Ltac by_isok := first [eassumption | apply isok_intro; eassumption].
 Lemma safe_arguments p : isok R_Arguments ANon p -> safe (build_arguments inp file p).
 Proof.
   intros H. open_pair p H. steps.
-  match goal with H : Shape.gent _ _ _ _ (Plus (Call R_Argument)) _ _ |- _ =>
+  match goal with H : Shape.gent _ _ _ _ _ (Plus (Call R_Argument)) _ _ |- _ =>
     apply (plus_call_isok true ANon R_Argument eq_refl) in H; rename H into Hk end.
   unfold build_arguments, all_children. cbn [pair_kids]. rewrite (forall_isok_is_rule _ _ _ Hk).
   apply safe_bind; [|intros; exact I].
@@ -356,7 +387,7 @@ Qed.
 Lemma safe_directives p : isok R_Directives ANon p -> safe (build_directives inp file p).
 Proof.
   intros H. open_pair p H.
-  match goal with H : Shape.gent _ _ _ _ (Plus (Call R_Directive)) _ _ |- _ =>
+  match goal with H : Shape.gent _ _ _ _ _ (Plus (Call R_Directive)) _ _ |- _ =>
     apply (plus_call_isok true ANon R_Directive eq_refl) in H; rename H into Hk end.
   unfold build_directives, all_children. cbn [pair_kids]. rewrite (forall_isok_is_rule _ _ _ Hk).
   apply safe_mapM. eapply Forall_impl; [|exact Hk]. intros x Hf.
@@ -498,7 +529,7 @@ Lemma safe_selection_set : forall n p, (psize p <= n)%nat -> isok R_SelectionSet
 Proof.
   induction n as [|n IH]; intros p Hn H; [destruct p; cbn in Hn; lia|].
   open_pair p H. steps.
-  match goal with H : Shape.gent _ _ _ _ (Plus (Call R_Selection)) _ _ |- _ =>
+  match goal with H : Shape.gent _ _ _ _ _ (Plus (Call R_Selection)) _ _ |- _ =>
     apply (plus_call_isok true ANon R_Selection eq_refl) in H; rename H into Hk end.
   rewrite bss_unfold, (forall_isok_is_rule _ _ _ Hk). apply safe_bind; [|intros; exact I].
   apply safe_mapM. rewrite Forall_forall in *. intros x Hx. pose proof (Hk x Hx) as Hf.
@@ -536,7 +567,7 @@ Qed.
 Lemma safe_variables_definition p : isok R_VariablesDefinition ANon p -> safe (build_variables_definition inp file p).
 Proof.
   intros H. open_pair p H. steps.
-  match goal with H : Shape.gent _ _ _ _ (Plus (Call R_VariableDefinition)) _ _ |- _ =>
+  match goal with H : Shape.gent _ _ _ _ _ (Plus (Call R_VariableDefinition)) _ _ |- _ =>
     apply (plus_call_isok true ANon R_VariableDefinition eq_refl) in H; rename H into Hk end.
   unfold build_variables_definition, all_children. cbn [pair_kids]. rewrite (forall_isok_is_rule _ _ _ Hk).
   apply safe_bind; [|intros; exact I].
@@ -550,7 +581,7 @@ Proof.
   intros H. open_okx H. unfold as_str; cbn [pair_start pair_end].
   steps;
     match goal with
-    | Hk : Shape.okx _ _ _ (Pair _ _ _ _) |- _ => open_okx Hk; steps
+    | Hk : Shape.okx _ _ _ _ (Pair _ _ _ _) |- _ => open_okx Hk; steps
     end;
     repeat match goal with H : _ = substr _ _ _ |- _ => rewrite <- H; clear H end; exact I.
 Qed.
@@ -590,8 +621,8 @@ Lemma safe_operation_document ps t :
   gent true ANon (Call R_ExecutableDocument) t ps -> safe (build_operation_document inp file ps).
 Proof.
   intros H. inv_call H.
-  match goal with H : Shape.okx _ _ _ (Pair R_ExecutableDocument _ _ _) |- _ => open_okx H end. steps.
-  match goal with H : Shape.gent _ _ _ _ (Plus (Call R_ExecutableDefinition)) _ _ |- _ =>
+  match goal with H : Shape.okx _ _ _ _ (Pair R_ExecutableDocument _ _ _) |- _ => open_okx H end. steps.
+  match goal with H : Shape.gent _ _ _ _ _ (Plus (Call R_ExecutableDefinition)) _ _ |- _ =>
     apply (plus_call_isok true ANon R_ExecutableDefinition eq_refl) in H; rename H into Hk end.
   unfold build_operation_document. cbn [pair_rule pair_kids].
   apply safe_bind; [|intros; exact I].
@@ -631,7 +662,7 @@ Proof. intros Hk. apply safe_mapM. eapply Forall_impl; [|exact Hk]. intros x Hx.
 Lemma safe_arguments_definition p : isok R_ArgumentsDefinition ANon p -> safe (build_arguments_definition inp file p).
 Proof.
   intros H. open_pair p H. steps.
-  match goal with H : Shape.gent _ _ _ _ (Plus (Call R_InputValueDefinition)) _ _ |- _ =>
+  match goal with H : Shape.gent _ _ _ _ _ (Plus (Call R_InputValueDefinition)) _ _ |- _ =>
     apply (plus_call_isok true ANon R_InputValueDefinition eq_refl) in H; rename H into Hk end.
   unfold build_arguments_definition, all_children. cbn [pair_kids]. rewrite (forall_isok_is_rule _ _ _ Hk).
   apply safe_ivd_list. exact Hk.
@@ -640,7 +671,7 @@ Qed.
 Lemma safe_input_fields_definition p : isok R_InputFieldsDefinition ANon p -> safe (build_input_fields_definition inp file p).
 Proof.
   intros H. open_pair p H. steps.
-  match goal with H : Shape.gent _ _ _ _ (Plus (Call R_InputValueDefinition)) _ _ |- _ =>
+  match goal with H : Shape.gent _ _ _ _ _ (Plus (Call R_InputValueDefinition)) _ _ |- _ =>
     apply (plus_call_isok true ANon R_InputValueDefinition eq_refl) in H; rename H into Hk end.
   unfold build_input_fields_definition, all_children. cbn [pair_kids]. rewrite (forall_isok_is_rule _ _ _ Hk).
   apply safe_ivd_list. exact Hk.
@@ -655,7 +686,7 @@ Ltac solve_safe4 :=
 Lemma safe_fields_definition p : isok R_FieldsDefinition ANon p -> safe (build_fields_definition inp file p).
 Proof.
   intros H. open_pair p H. steps.
-  match goal with H : Shape.gent _ _ _ _ (Plus (Call R_FieldDefinition)) _ _ |- _ =>
+  match goal with H : Shape.gent _ _ _ _ _ (Plus (Call R_FieldDefinition)) _ _ |- _ =>
     apply (plus_call_isok true ANon R_FieldDefinition eq_refl) in H; rename H into Hk end.
   unfold build_fields_definition, all_children. cbn [pair_kids]. rewrite (forall_isok_is_rule _ _ _ Hk).
   apply safe_mapM. eapply Forall_impl; [|exact Hk]. intros x Hf.
@@ -675,7 +706,7 @@ Qed.
 Lemma safe_enum_values p : isok R_EnumValuesDefinition ANon p -> safe (build_enum_values_opt inp file (Some p)).
 Proof.
   intros H. open_pair p H. steps.
-  match goal with H : Shape.gent _ _ _ _ (Plus (Call R_EnumValueDefinition)) _ _ |- _ =>
+  match goal with H : Shape.gent _ _ _ _ _ (Plus (Call R_EnumValueDefinition)) _ _ |- _ =>
     apply (plus_call_isok true ANon R_EnumValueDefinition eq_refl) in H; rename H into Hk end.
   unfold build_enum_values_opt, all_children. cbn [pair_kids]. rewrite (forall_isok_is_rule _ _ _ Hk).
   apply safe_mapM. eapply Forall_impl; [|exact Hk]. intros x Hx. apply safe_enum_value_definition. exact Hx.
@@ -689,15 +720,15 @@ Proof.
   intros Hr H. eapply star_forall; [|exact H].
   intros t' ps' H'. inv H'.
   repeat match goal with
-  | H : Shape.gent _ _ _ _ (Lit _) _ _ |- _ => inv H
-  | H : Shape.tskip _ _ _ _ _ ?p |- _ => apply skip_nopairs in H; subst p
+  | H : Shape.gent _ _ _ _ _ (Lit _) _ _ |- _ => inv H
+  | H : Shape.tskip _ _ _ _ _ _ ?p |- _ => apply skip_nopairs in H; subst p
   end. cbn [app]. eapply call_isok; eassumption.
 Qed.
 
 Lemma safe_implements p : isok R_ImplementsInterfaces ANon p -> safe (build_implements_interfaces inp file p).
 Proof.
   intros H. open_pair p H. steps;
-    match goal with H : Shape.gent _ _ _ _ (Star (Seq (Lit _) (Call R_NamedType))) _ _ |- _ =>
+    match goal with H : Shape.gent _ _ _ _ _ (Star (Seq (Lit _) (Call R_NamedType))) _ _ |- _ =>
       apply (sep_list_isok _ R_NamedType _ _ eq_refl) in H; rename H into Hk end;
     unfold build_implements_interfaces; cbn [pair_kids]; slots;
     apply safe_mapM; constructor;
@@ -712,7 +743,7 @@ Proof. destruct o as [d|]; intros H; cbn [build_implements_opt]; [apply safe_imp
 Lemma safe_union_members p : isok R_UnionMemberTypes ANon p -> safe (build_union_members_opt inp file (Some p)).
 Proof.
   intros H. open_pair p H. steps;
-    match goal with H : Shape.gent _ _ _ _ (Star (Seq (Lit _) (Call R_NamedType))) _ _ |- _ =>
+    match goal with H : Shape.gent _ _ _ _ _ (Star (Seq (Lit _) (Call R_NamedType))) _ _ |- _ =>
       apply (sep_list_isok _ R_NamedType _ _ eq_refl) in H; rename H into Hk end;
     unfold build_union_members_opt, all_children; cbn [pair_kids forallb]; slots;
     rewrite (forall_isok_is_rule _ _ _ Hk); exact I.
@@ -753,7 +784,7 @@ Lemma safe_root_operation_types p : isok R_RootOperationTypeDefinitions ANon p -
   safe (build_root_operation_type_definitions inp file p).
 Proof.
   intros H. open_pair p H. steps.
-  match goal with H : Shape.gent _ _ _ _ (Plus (Call R_RootOperationTypeDefinition)) _ _ |- _ =>
+  match goal with H : Shape.gent _ _ _ _ _ (Plus (Call R_RootOperationTypeDefinition)) _ _ |- _ =>
     apply (plus_call_isok true ANon R_RootOperationTypeDefinition eq_refl) in H; rename H into Hk end.
   unfold build_root_operation_type_definitions, all_children. cbn [pair_kids]. rewrite (forall_isok_is_rule _ _ _ Hk).
   apply safe_mapM. eapply Forall_impl; [|exact Hk]. intros x Hf.
@@ -776,7 +807,7 @@ Lemma safe_directive_locations s e kids : okx ANon (Pair R_DirectiveLocations s 
   forallb (is_rule R_DirectiveLocation) kids = true.
 Proof.
   intros H. open_okx H. steps;
-    match goal with H : Shape.gent _ _ _ _ (Star (Seq (Lit _) (Call R_DirectiveLocation))) _ _ |- _ =>
+    match goal with H : Shape.gent _ _ _ _ _ (Star (Seq (Lit _) (Call R_DirectiveLocation))) _ _ |- _ =>
       apply (sep_list_isok _ R_DirectiveLocation _ _ eq_refl) in H; rename H into Hk end;
     cbn [forallb]; slots; apply (forall_isok_is_rule _ _ _ Hk).
 Qed.
@@ -787,7 +818,7 @@ Proof.
     repeat (apply safe_bind; [|intros ? _]);
     first [ solve_safe5
           | unfold all_children; cbn [pair_kids];
-            match goal with H : Shape.okx _ _ _ (Pair R_DirectiveLocations _ _ _) |- _ => rewrite (safe_directive_locations _ _ _ H) end; exact I ].
+            match goal with H : Shape.okx _ _ _ _ (Pair R_DirectiveLocations _ _ _) |- _ => rewrite (safe_directive_locations _ _ _ H) end; exact I ].
 Qed.
 
 Lemma safe_ts_definition_or_extension p : isok R_TypeSystemDefinitionOrExtension ANon p ->
@@ -806,8 +837,8 @@ Lemma safe_type_system_document ps t :
   gent true ANon (Call R_TypeSystemExtensionDocument) t ps -> safe (build_type_system_document inp file ps).
 Proof.
   intros H. inv_call H.
-  match goal with H : Shape.okx _ _ _ (Pair R_TypeSystemExtensionDocument _ _ _) |- _ => open_okx H end. steps.
-  match goal with H : Shape.gent _ _ _ _ (Plus (Call R_TypeSystemDefinitionOrExtension)) _ _ |- _ =>
+  match goal with H : Shape.okx _ _ _ _ (Pair R_TypeSystemExtensionDocument _ _ _) |- _ => open_okx H end. steps.
+  match goal with H : Shape.gent _ _ _ _ _ (Plus (Call R_TypeSystemDefinitionOrExtension)) _ _ |- _ =>
     apply (plus_call_isok true ANon R_TypeSystemDefinitionOrExtension eq_refl) in H; rename H into Hk end.
   unfold build_type_system_document. cbn [pair_rule pair_kids].
   apply safe_mapM. apply forall_filter. apply Forall_app. split.
@@ -817,13 +848,90 @@ Qed.
 
 End Safe.
 
+(** ** the validation pass (parser/mod.rs validate_string_values, C07.Model.validate_pair) *)
+Section Validate.
+Variable inp : str.
+Notation T := (fun _ : pr => True).
+
+Lemma vp_unfold r s e kids :
+  validate_pair inp (Pair r s e kids) =
+  match (match r with
+         | R_NormalStringValue =>
+             match decode_string_characters inp (Pair r s e kids) with DOk _ => VOk | DErr _ => VErr | DPanic k => VPanic k end
+         | _ => VOk
+         end) with
+  | VOk => validate_string_values inp kids
+  | e0 => e0
+  end.
+Proof.
+  cbn [validate_pair].
+  match goal with |- match ?x with _ => _ end = _ => destruct x; try reflexivity end.
+  induction kids as [|x l IH]; [reflexivity|]. cbn [validate_string_values]. destruct (validate_pair inp x); try reflexivity. exact IH.
+Qed.
+
+(** validation accepted the forest: every NormalStringValue pair in it decodes *)
+Lemma validate_list_ok n :
+  (forall p, (psize p <= n)%nat -> validate_pair inp p = VOk -> allp (decodes inp) p) ->
+  forall l, (lsize l <= n)%nat -> validate_string_values inp l = VOk -> Forall (allp (decodes inp)) l.
+Proof.
+  intros Hp. induction l as [|x l IH]; intros Hn Hv; [constructor|].
+  cbn [validate_string_values] in Hv. rewrite lsize_cons in Hn.
+  destruct (validate_pair inp x) eqn:Hx; try discriminate.
+  constructor; [apply Hp; [lia|exact Hx]|apply IH; [lia|exact Hv]].
+Qed.
+
+Lemma validate_pair_ok : forall n p, (psize p <= n)%nat -> validate_pair inp p = VOk -> allp (decodes inp) p.
+Proof.
+  induction n as [|n IH]; intros [r s e kids] Hn Hv; [cbn in Hn; lia|].
+  rewrite vp_unfold in Hv. rewrite psize_pair in Hn.
+  constructor.
+  - intros Hr. cbn [pair_rule] in Hr. subst r.
+    destruct (decode_string_characters inp (Pair R_NormalStringValue s e kids)) as [v|b|k]; [eexists; reflexivity|discriminate|discriminate].
+  - apply (validate_list_ok n IH); [lia|].
+    destruct r; try exact Hv;
+      destruct (decode_string_characters inp (Pair R_NormalStringValue s e kids)); try discriminate; exact Hv.
+Qed.
+
+Lemma validate_ok_allp l : validate_string_values inp l = VOk -> Forall (allp (decodes inp)) l.
+Proof. apply (validate_list_ok (lsize l) (validate_pair_ok (lsize l))). apply Nat.le_refl. Qed.
+
+(** ... and on the forest of a parse it never reaches a panic of the decoder *)
+Notation shaped := (allp (fun q => exists a, Shape.okx G inp T a q)).
+
+Lemma validate_list_np n :
+  (forall p, (psize p <= n)%nat -> shaped p -> forall k, validate_pair inp p <> VPanic k) ->
+  forall l, (lsize l <= n)%nat -> Forall shaped l -> forall k, validate_string_values inp l <> VPanic k.
+Proof.
+  intros Hp. induction l as [|x l IH]; intros Hn Ha k; [discriminate|].
+  cbn [validate_string_values]. rewrite lsize_cons in Hn. inversion Ha as [|? ? Hx Hl]; subst.
+  pose proof (Hp x ltac:(lia) Hx) as Hpx.
+  destruct (validate_pair inp x) as [| |k'] eqn:E; [apply IH; [lia|exact Hl]|discriminate|].
+  exfalso. exact (Hpx k' eq_refl).
+Qed.
+
+Lemma validate_pair_np : forall n p, (psize p <= n)%nat -> shaped p -> forall k, validate_pair inp p <> VPanic k.
+Proof.
+  induction n as [|n IH]; intros [r s e kids] Hn Ha k; [cbn in Hn; lia|].
+  rewrite vp_unfold. rewrite psize_pair in Hn.
+  inversion Ha as [? ? ? ? [a Hok] Hkids]; subst.
+  assert (Hk : validate_string_values inp kids <> VPanic k) by (apply (validate_list_np n IH); [lia|exact Hkids]).
+  destruct r; try exact Hk.
+  pose proof (decode_no_panic inp T a s e kids Hok) as Hd.
+  destruct (decode_string_characters inp (Pair R_NormalStringValue s e kids)) as [v|b|k']; [exact Hk|discriminate|].
+  exfalso. exact (Hd k' eq_refl).
+Qed.
+
+Lemma validate_no_panic l : Forall shaped l -> forall k, validate_string_values inp l <> VPanic k.
+Proof. apply (validate_list_np (lsize l) (validate_pair_np (lsize l))). apply Nat.le_refl. Qed.
+End Validate.
+
 Lemma pp_unfold start inp : parse_pairs start inp = parse_with G (default_fuel inp) start inp.
 Proof. reflexivity. Qed.
 
 Lemma pod_unfold file inp :
   parse_operation_document file inp =
   match parse_pairs R_ExecutableDocument inp with
-  | Ok ps => of_bres (build_operation_document inp file ps)
+  | Ok ps => after_validation inp ps (of_bres (build_operation_document inp file ps))
   | Fail => PErr
   | OutOfFuel => PFuel
   end.
@@ -832,7 +940,7 @@ Proof. reflexivity. Qed.
 Lemma ptd_unfold file inp :
   parse_type_system_document file inp =
   match parse_pairs R_TypeSystemExtensionDocument inp with
-  | Ok ps => of_bres (build_type_system_document inp file ps)
+  | Ok ps => after_validation inp ps (of_bres (build_type_system_document inp file ps))
   | Fail => PErr
   | OutOfFuel => PFuel
   end.
@@ -840,28 +948,38 @@ Proof. reflexivity. Qed.
 
 Local Opaque parse_pairs parse_with.
 
-(** for every text: if the parser model's outcome is a panic, it is one of the two value-level panics of
-    string escapes -- never a shape panic of the builder, never "Empty document" *)
-Theorem builder_shapes_ok : forall inp file k,
-  parse_operation_document file inp = PPanic k -> k = P_char \/ k = P_radix.
+(** validation + building on the forest of a successful parse never panic *)
+Lemma after_validation_no_panic {A} inp start t ps (b : bres A) :
+  Shape.gent G inp (fun _ => True) true ANon (Call start) t ps ->
+  (Shape.gent G inp (decodes inp) true ANon (Call start) t ps -> safe b) ->
+  forall k, after_validation inp ps (of_bres b) <> PPanic k.
 Proof.
-  intros inp file k H. rewrite pod_unfold in H.
-  destruct (parse_pairs R_ExecutableDocument inp) as [ps| |] eqn:E; try discriminate H.
-  rewrite pp_unfold in E.
-  destruct (parse_gent _ _ _ _ E) as [t Hg].
-  pose proof (safe_operation_document inp file ps t Hg) as Hs.
-  destruct (build_operation_document inp file ps) as [d|k']; cbn [of_bres] in H; [discriminate H|].
-  inversion H; subst. exact Hs.
+  intros Hg Hb k. unfold after_validation.
+  destruct (validate_string_values inp ps) as [| |k'] eqn:V.
+  - assert (Hall : Forall (allp (decodes inp)) ps) by (apply validate_ok_allp; exact V).
+    pose proof (Hb (proj1 (gent_upgrade G inp (decodes inp)) _ _ _ _ _ Hg Hall)) as Hs.
+    destruct b; [discriminate|contradiction].
+  - discriminate.
+  - exfalso. eapply validate_no_panic; [|exact V].
+    exact (proj1 (gent_allp_okx G inp) _ _ _ _ _ Hg).
 Qed.
 
-Theorem builder_shapes_ok_ts : forall inp file k,
-  parse_type_system_document file inp = PPanic k -> k = P_char \/ k = P_radix.
+(** for every text the parser model returns a document or a parse error: NO panic of the builder or of the
+    string decoder is reachable (since /repo a4a3647 invalid unicode escapes are parse errors) *)
+Theorem builder_shapes_ok : forall inp file k, parse_operation_document file inp <> PPanic k.
 Proof.
-  intros inp file k H. rewrite ptd_unfold in H.
-  destruct (parse_pairs R_TypeSystemExtensionDocument inp) as [ps| |] eqn:E; try discriminate H.
-  rewrite pp_unfold in E.
-  destruct (parse_gent _ _ _ _ E) as [t Hg].
-  pose proof (safe_type_system_document inp file ps t Hg) as Hs.
-  destruct (build_type_system_document inp file ps) as [d|k']; cbn [of_bres] in H; [discriminate H|].
-  inversion H; subst. exact Hs.
+  intros inp file k. rewrite pod_unfold.
+  destruct (parse_pairs R_ExecutableDocument inp) as [ps| |] eqn:E; try discriminate.
+  rewrite pp_unfold in E. destruct (parse_gent _ _ _ _ E) as [t Hg].
+  apply (after_validation_no_panic inp R_ExecutableDocument t ps _ Hg).
+  intros Hd. exact (safe_operation_document inp file (decodes inp) (fun q H => H) ps t Hd).
+Qed.
+
+Theorem builder_shapes_ok_ts : forall inp file k, parse_type_system_document file inp <> PPanic k.
+Proof.
+  intros inp file k. rewrite ptd_unfold.
+  destruct (parse_pairs R_TypeSystemExtensionDocument inp) as [ps| |] eqn:E; try discriminate.
+  rewrite pp_unfold in E. destruct (parse_gent _ _ _ _ E) as [t Hg].
+  apply (after_validation_no_panic inp R_TypeSystemExtensionDocument t ps _ Hg).
+  intros Hd. exact (safe_type_system_document inp file (decodes inp) (fun q H => H) ps t Hd).
 Qed.
